@@ -73,6 +73,36 @@ def split_args(text):
     return out
 
 
+def rewrite_calls(body, head_re, fn):
+    """replace every call `HEAD(args...)` (HEAD matched by head_re, parentheses balanced) by fn(list_of_args);
+    innermost calls first so nested constructor calls are lowered inside-out.  Returns (new_body, count)."""
+    count = 0
+    while True:
+        ms = list(re.finditer(head_re, body))
+        done = True
+        for m in reversed(ms):          # last match first: inner / later calls before the ones that contain them
+            i = m.end() - 1
+            assert body[i] == '('
+            depth, j = 0, i
+            while j < len(body):
+                if body[j] == '(':
+                    depth += 1
+                elif body[j] == ')':
+                    depth -= 1
+                    if depth == 0:
+                        break
+                j += 1
+            if depth != 0:
+                raise ExtractError('unbalanced call: ' + head_re)
+            args = split_args(body[i + 1:j])
+            body = body[:m.start()] + fn(args) + body[j + 1:]
+            count += 1
+            done = False
+            break
+        if done:
+            return body, count
+
+
 def _point_decl(m):
     """R12: `point_t p(a, b);` (constructor syntax) -> member-wise initialisation"""
     a = split_args(m.group(2))
@@ -108,7 +138,10 @@ def apply_rules(body, rules):
     fired = []
     for rule in rules:
         name, pat, rep, must = rule[0], rule[1], rule[2], rule[3]
-        new, n = re.subn(pat, rep, body, flags=re.S)
+        if callable(pat):
+            new, n = pat(body)          # structural rewrite (e.g. constructor calls with a variable number of arguments)
+        else:
+            new, n = re.subn(pat, rep, body, flags=re.S)
         if must and n == 0:
             raise ExtractError('must-fire rule did not fire: %s (%s)' % (name, pat))
         if n:
